@@ -3,7 +3,7 @@
    per-alias map to the live entry. heapq is modelled as a list with pop-min on when_millis (ties in
    any order give the same set of ready types). Times in ms; the monotonic clock resolution added to
    `now` in _process_ready_types is below 1 ms and vanishes on integer clocks. *)
-From ZC Require Import Model.Base Model.Dict Gen.Const.
+From ZC Require Import Model.Base Model.Dict Gen.Const Gen.Sites.
 
 Record squery := {
   sq_id : Z;                 (* object identity *)
@@ -42,13 +42,15 @@ Definition cancel_id (h : list squery) (id : Z) : list squery :=
 
 (* _rearm_if_due_earlier: wake up earlier when a query is now due before the armed time, but never
    before the rate limit allows; while a pass is running the armed deadline is in the past *)
-Definition rearm_if_due_earlier (s : sched) (when_ : Z) : sched :=
+Definition rearm_if_due_earlier :=
+  Eval cbv beta iota delta [sop_apply site_sched_rearm] in
+  fun (s : sched) (when_ : Z) =>
   if sc_min_next s =? 0 then s else
   match sc_next_run s with
   | None => s
   | Some (armed, k) =>
       let w := Z.max when_ (sc_min_next s) in
-      if w <? armed then
+      if sop_apply site_sched_rearm w armed then
         {| sc_heap := sc_heap s; sc_by_alias := sc_by_alias s; sc_next_run := Some (w, TReady);
            sc_startup_sent := sc_startup_sent s; sc_delay := sc_delay s; sc_first_qu := sc_first_qu s;
            sc_fresh := sc_fresh s; sc_stopped := sc_stopped s; sc_min_next := sc_min_next s |}
@@ -80,14 +82,16 @@ Definition retime_id (h : list squery) (id ttl expire : Z) : list squery :=
                 else q) h.
 
 (* reschedule_ptr_first_refresh(pointer): created/ttl of the (refreshed) cached pointer *)
-Definition reschedule_ptr_first_refresh (s : sched) (alias name : text) (created ttl : Z) : sched :=
+Definition reschedule_ptr_first_refresh :=
+  Eval cbv beta iota delta [sop_apply site_sched_no_churn_1 site_sched_no_churn_2] in
+  fun (s : sched) (alias name : text) (created ttl : Z) =>
   let refresh := created + C_EXPIRE_REFRESH_TIME_PERCENT * ttl * 10 in
   let expire := created + 100 * ttl * 10 in
   match d_get text_eqb (sc_by_alias s) alias with
   | Some id =>
       match find_id (sc_heap s) id with
       | Some cur =>
-          if (- sc_delay s <=? refresh - sq_when cur) && (refresh - sq_when cur <=? sc_delay s)
+          if sop_apply site_sched_no_churn_1 (- sc_delay s) (refresh - sq_when cur) && sop_apply site_sched_no_churn_2 (refresh - sq_when cur) (sc_delay s)
           then with_heap_alias_fresh s (retime_id (sc_heap s) id ttl expire) (sc_by_alias s) (sc_fresh s)
           else push (with_heap_alias_fresh s (cancel_id (sc_heap s) id) (d_del text_eqb (sc_by_alias s) alias) (sc_fresh s))
                     alias name ttl expire refresh
@@ -97,9 +101,11 @@ Definition reschedule_ptr_first_refresh (s : sched) (alias name : text) (created
   end.
 
 (* schedule_rescue_query: +10 % of the TTL, unless that is at or past the expiry *)
-Definition schedule_rescue (s : sched) (q : squery) (now : Z) : sched :=
+Definition schedule_rescue :=
+  Eval cbv beta iota delta [sop_apply site_sched_rescue_past_expiry] in
+  fun (s : sched) (q : squery) (now : Z) =>
   let next := now + (sq_ttl q * 1000 * C_RESCUE_RECORD_RETRY_TTL_PERCENTAGE_num) / C_RESCUE_RECORD_RETRY_TTL_PERCENTAGE_den in
-  if next >=? sq_expire q then s else push s (sq_alias q) (sq_name q) (sq_ttl q) (sq_expire q) next.
+  if sop_apply site_sched_rescue_past_expiry next (sq_expire q) then s else push s (sq_alias q) (sq_name q) (sq_ttl q) (sq_expire q) next.
 
 (* observable: a call of async_send_ready_queries(first_request, now, types) *)
 Record ssend := { ss_now : Z; ss_qu_first : bool; ss_types : list text }.
@@ -115,19 +121,22 @@ Definition set_min_next (s : sched) (m : Z) : sched :=
      sc_min_next := m |}.
 
 (* pop the heap while its minimum is cancelled or due *)
-Fixpoint min_query (h : list squery) : option squery :=
+Definition min_query :=
+  Eval cbv beta iota delta [sop_apply site_sched_lt] in
+  fix min_query (h : list squery) {struct h} : option squery :=
   match h with
   | [] => None
   | q :: r => match min_query r with
-              | Some m => if sq_when m <? sq_when q then Some m else Some q
+              | Some m => if sop_apply site_sched_lt (sq_when m) (sq_when q) then Some m else Some q
               | None => Some q
               end
   end.
 Fixpoint remove_id (h : list squery) (id : Z) : list squery :=
   match h with [] => [] | q :: r => if sq_id q =? id then r else q :: remove_id r id end.
 
-Fixpoint drain (fuel : nat) (h : list squery) (aliases : list (text * Z)) (now : Z) (ready : list squery)
-  : list squery * list (text * Z) * list squery * option squery :=
+Definition drain :=
+  Eval cbv beta iota delta [sop_apply site_sched_ready_stop] in
+  fix drain (fuel : nat) (h : list squery) (aliases : list (text * Z)) (now : Z) (ready : list squery) {struct fuel} : list squery * list (text * Z) * list squery * option squery :=
   match fuel with
   | O => (h, aliases, ready, None)
   | S f =>
@@ -135,7 +144,7 @@ Fixpoint drain (fuel : nat) (h : list squery) (aliases : list (text * Z)) (now :
       | None => (h, aliases, ready, None)
       | Some q =>
           if sq_cancelled q then drain f (remove_id h (sq_id q)) aliases now ready
-          else if sq_when q >? now then (h, aliases, ready, Some q)
+          else if sop_apply site_sched_ready_stop (sq_when q) now then (h, aliases, ready, Some q)
           else drain f (remove_id h (sq_id q)) (d_del text_eqb aliases (sq_alias q)) now (ready ++ [q])
       end
   end.
@@ -150,7 +159,9 @@ Inductive slabel :=
 | LCancel (alias : text)                              (* browser saw the PTR expire / withdrawn *)
 | LStop.
 
-Definition sstep (types : list text) (done : bool) (s : sched) (l : slabel) : option (sched * list ssend) :=
+Definition sstep :=
+  Eval cbv beta iota delta [sop_apply site_sched_startup_done site_sched_next_later] in
+  fun (types : list text) (done : bool) (s : sched) (l : slabel) =>
   match l with
   | LStart now rnd => Some (arm s (Some (now + rnd, TStartup)), [])
   | LStop => Some ({| sc_heap := []; sc_by_alias := []; sc_next_run := None; sc_startup_sent := sc_startup_sent s;
@@ -171,7 +182,7 @@ Definition sstep (types : list text) (done : bool) (s : sched) (l : slabel) : op
               let s1 := {| sc_heap := sc_heap s; sc_by_alias := sc_by_alias s; sc_next_run := None; sc_startup_sent := sent;
                            sc_delay := sc_delay s; sc_first_qu := sc_first_qu s; sc_fresh := sc_fresh s; sc_stopped := sc_stopped s;
                            sc_min_next := sc_min_next s |} in
-              if sent >=? C_STARTUP_QUERIES
+              if sop_apply site_sched_startup_done sent C_STARTUP_QUERIES
               then Some (arm (set_min_next s1 (now + sc_delay s)) (Some (now + sc_delay s, TReady)), [snd_])
               else Some (arm s1 (Some (now + sent * sent * 1000, TStartup)), [snd_])
           | TReady =>
@@ -189,7 +200,7 @@ Definition sstep (types : list text) (done : bool) (s : sched) (l : slabel) : op
                            end in
               let next_time := now + sc_delay s in
               let next_when := match next_scheduled with
-                               | Some q => if sq_when q >? next_time then sq_when q else next_time
+                               | Some q => if sop_apply site_sched_next_later (sq_when q) next_time then sq_when q else next_time
                                | None => next_time
                                end in
               let s2 := set_min_next s2 next_time in
